@@ -19,10 +19,11 @@ pub mod windows;
 #[cfg(target_os = "linux")]
 pub mod splice;
 
-// map v6 socket addr into v4 if possible
+// map a v4-mapped v6 socket addr (::ffff:a.b.c.d, what a dual-stack socket reports for a v4 peer) into v4.
+// every other v6 address stays as it is: `to_ipv4()` would also rewrite ::1 into 0.0.0.1 and ::a.b.c.d into a.b.c.d
 pub fn try_map_v4_addr(addr: SocketAddr) -> SocketAddr {
     if let SocketAddr::V6(v6) = addr {
-        if let Some(v4a) = v6.ip().to_ipv4() {
+        if let Some(v4a) = v6.ip().to_ipv4_mapped() {
             SocketAddr::V4(SocketAddrV4::new(v4a, v6.port()))
         } else {
             addr
